@@ -292,6 +292,7 @@ type e2p struct {
 	Resend     bool     `json:"resend,omitempty"`
 	Types      []string `json:"types,omitempty"`
 	SyncFaults []string `json:"sync_faults,omitempty"`
+	Foreign    bool     `json:"foreign,omitempty"`
 }
 
 const assumeE2 = "whole system in one testing/synctest bubble per execution: real OrdaService, real server/mongodb over mongo-driver 1.10.1 speaking the wire protocol to the in-memory mongofake, real Notifier over an MQTT stand-in, real SDK clients over an in-process RPC stub (protobuf round trip per message); virtual time; background goroutines drained after every action"
@@ -493,6 +494,36 @@ func init() {
 			p.Runs = []Run{
 				{Name: "pairs-large", Check: "C19", Params: wp{Type: "doc", N: 2, Alpha: "large"}, Depth: 2},
 				{Name: "chains-small", Check: "C19", Params: wp{Type: "doc", N: 2, Alpha: "small"}, Depth: 3, MaxState: 400000},
+			}
+		}
+		return p
+	}
+}
+
+func init() {
+	plans["C17"] = func(tier string) Plan {
+		p := Plan{ID: "C17", Level: "model_checking",
+			Rule: "breadth-first search over histories of 2-4 real clients spread over 2 (thorough 3) collections that use the SAME keys: open, local operation, Sync, ResetCollection of either collection, and foreign " +
+				"requests (a client naming the other collection; a pack carrying the id of the other collection's datatype with option bits 0..3); frame oracle on EVERY transition: the projection of the database " +
+				"dump onto every other collection (documents by collection number, user collection by name) is unchanged, collection numbers stay distinct, a reset leaves nothing of its collection, no foreign " +
+				"operations are handed out, foreign-collection requests are refused; plus C05/C06 oracles per collection",
+			Assume: []string{assumeE2, assumeInstr}}
+		o := []string{"isolate", "log", "converge", "applied"}
+		if tier == "quick" {
+			p.BudgetS = 480
+			p.Runs = []Run{
+				e2run("counter-2col-2c-joined-d4", e2p{Clients: 2, Type: "counter", Colls: []string{"colA", "colB"}, Prefix: "joined", Foreign: true, Alpha: "one", Oracles: o}, 4, 0),
+				e2run("counter-2col-4c-joined-d3", e2p{Clients: 4, Type: "counter", Colls: []string{"colA", "colB"}, Prefix: "joined", Foreign: true, Alpha: "one", Oracles: o}, 3, 0),
+				e2run("counter-2col-2c-entry-d4", e2p{Clients: 2, Type: "counter", Colls: []string{"colA", "colB"}, Modes: []string{"soc"}, Foreign: true, Alpha: "one", Oracles: o}, 4, 0),
+			}
+		} else {
+			p.BudgetS = 3300
+			p.Runs = []Run{
+				e2run("counter-2col-2c-joined-d6", e2p{Clients: 2, Type: "counter", Colls: []string{"colA", "colB"}, Prefix: "joined", Foreign: true, Alpha: "one", Oracles: o}, 6, 300000),
+				e2run("counter-2col-4c-joined-d5", e2p{Clients: 4, Type: "counter", Colls: []string{"colA", "colB"}, Prefix: "joined", Foreign: true, Alpha: "one", Oracles: o}, 5, 300000),
+				e2run("list-3col-3c-joined-d5", e2p{Clients: 3, Type: "list", Colls: []string{"colA", "colB", "colC"}, Prefix: "joined", Foreign: true, Oracles: o}, 5, 300000),
+				e2run("counter-2col-2c-entry-d6", e2p{Clients: 2, Type: "counter", Colls: []string{"colA", "colB"}, Foreign: true, Alpha: "one", Oracles: o}, 6, 300000),
+				e2run("doc-2col-2c-2keys-joined-d4", e2p{Clients: 2, Type: "doc", Keys: []string{"k1", "k2"}, Colls: []string{"colA", "colB"}, Prefix: "joined", Exchange: "pack", Foreign: true, Oracles: o}, 4, 300000),
 			}
 		}
 		return p
